@@ -308,7 +308,18 @@ func run(c Case) *hx.Outcome {
 	for si, s := range snaps {
 		where := fmt.Sprintf("target %s on %q, crash at point %d/%d %s %s", label, box, si+1, len(snaps), s.site, s.note)
 		st := hx.NewFile(extension.NewHost(), s.dir, capT)
-		if err := st.VisitMailboxes(func([]storage.Message) bool { return true }); err != nil {
+		// what a visit of the restarted store shows: mailbox -> ids in visit order, and how often
+		// a mailbox was handed to the visitor
+		visited, visits := map[string][]string{}, map[string]int{}
+		if err := st.VisitMailboxes(func(ms []storage.Message) bool {
+			if len(ms) > 0 {
+				visits[ms[0].Mailbox()]++
+			}
+			for _, m := range ms {
+				visited[m.Mailbox()] = append(visited[m.Mailbox()], m.ID())
+			}
+			return true
+		}); err != nil {
 			o.Failf(pid+":unreadable-after-crash", "%s: VisitMailboxes on the restarted store: %v", where, err)
 			break
 		}
@@ -317,6 +328,17 @@ func run(c Case) *hx.Outcome {
 			got, err := readView(st, b)
 			if err != nil {
 				o.Failf(pid+":unreadable-after-crash", "%s: %v", where, err)
+				bad = true
+				break
+			}
+			// "listed and visited": the visit hands over each mailbox that lists mail once, with
+			// the messages the listing shows (a mailbox left empty may be skipped or shown empty)
+			var listed []string
+			for _, m := range got {
+				listed = append(listed, m.id)
+			}
+			if len(listed) > 0 && (visits[b] != 1 || strings.Join(visited[b], " ") != strings.Join(listed, " ")) {
+				o.Failf(pid+":visit-differs-from-listing", "%s: mailbox %q lists %v but a visit of all mailboxes showed it %d time(s) with %v", where, b, listed, visits[b], visited[b])
 				bad = true
 				break
 			}
